@@ -271,6 +271,7 @@ def run(tier):
     reload_part(ck, tier)
     returned_arrays_part(ck, tier)
     from harness import c03
+    c03.readonly_part(ck, tier)             # read-outs leave the chain as it was; the recorded start is the point that was given
     c03.interrupted_part(ck, tier)          # read-outs stay aligned when a step was interrupted by an exception of the posterior
     from harness import c03 as _c03
     _c03.defaults_part(ck, tier)                 # default-argument read-outs are aligned row for row
